@@ -24,6 +24,7 @@ import (
 	"github.com/miekg/dns"
 
 	"github.com/semihalev/sdns/config"
+	"github.com/semihalev/sdns/middleware"
 	"github.com/semihalev/sdns/server"
 	rc "github.com/semihalev/sdns/zzverif/replycontract"
 	"github.com/semihalev/sdns/zzverif/stack"
@@ -79,6 +80,7 @@ func buildConfig(c confSpec) *config.Config {
 type upstream struct {
 	hex    string
 	reqOPT bool
+	neg    *NegSpec
 }
 
 type upstreams struct{ m sync.Map }
@@ -89,13 +91,32 @@ func ukey(name string, qtype uint16) string {
 
 func (u *upstreams) set(c *Case) {
 	if c.UpstreamHex != "" {
-		u.m.Store(ukey(c.QName, c.QType), &upstream{c.UpstreamHex, c.UpstreamReqOPT})
+		u.m.Store(ukey(c.QName, c.QType), &upstream{c.UpstreamHex, c.UpstreamReqOPT, nil})
 	}
 }
 func (u *upstreams) del(c *Case) { u.m.Delete(ukey(c.QName, c.QType)) }
 
+// skey: a sequence script may be bound to the request's CD bit.
+func skey(s *Script) string {
+	k := ukey(s.Name, s.Type)
+	if s.CD != "" {
+		k += "/cd" + s.CD
+	}
+	return k
+}
+func (u *upstreams) setScript(s *Script) { u.m.Store(skey(s), &upstream{s.Hex, s.ReqOPT, s.Neg}) }
+func (u *upstreams) delScript(s *Script) { u.m.Delete(skey(s)) }
+
 func (u *upstreams) stub(_ context.Context, req *stack.StubRequest) *stack.StubReply {
-	v, ok := u.m.Load(ukey(req.Q.Name, req.Q.Qtype))
+	k := ukey(req.Q.Name, req.Q.Qtype)
+	cdk := k + "/cd0"
+	if req.CD {
+		cdk = k + "/cd1"
+	}
+	v, ok := u.m.Load(cdk)
+	if !ok {
+		v, ok = u.m.Load(k)
+	}
 	if !ok {
 		return nil // default marker answer (CNAME-chase targets, special names)
 	}
@@ -118,7 +139,16 @@ func (u *upstreams) stub(_ context.Context, req *stack.StubRequest) *stack.StubR
 			m.Extra = append(m.Extra, opt) // pointer identity, like resolver.clearAdditional
 		}
 	}
-	return &stack.StubReply{Msg: m}
+	rep := &stack.StubReply{Msg: m}
+	if up.neg != nil {
+		// what the real resolver attaches after validating the denial
+		kind := middleware.ValidatedNegativeProofNSEC
+		if up.neg.NSEC3 {
+			kind = middleware.ValidatedNegativeProofNSEC3
+		}
+		rep.Negative = &middleware.ValidatedNegativeProof{Subject: up.neg.Subject, Zone: up.neg.Zone, Kind: kind, Aggressive: true}
+	}
+	return rep
 }
 
 // ---------------------------------------------------------------------
@@ -149,8 +179,18 @@ func hostOf(addr string) string {
 	return h
 }
 
-// judge runs the contract on one observed exchange.
+// judge runs the contract on one observed exchange of a probe-list case.
 func (mo *monitor) judge(c *Case, pi int, transport string, clientIP string, query, reply []byte) {
+	mo.judgeWith(c, func() any {
+		wit := *c
+		wit.Probes = append([]Probe(nil), c.Probes[:pi+1]...)
+		return wit
+	}, pi, transport, clientIP, query, reply, c.UpstreamDesc)
+}
+
+// judgeWith is judge with a caller-built witness (the serialisable replay
+// case) and the description the distinct-case key uses.
+func (mo *monitor) judgeWith(c *Case, witness func() any, pi int, transport string, clientIP string, query, reply []byte, desc string) {
 	r := mo.r
 	tr := rc.Transport(transport)
 	if reply == nil {
@@ -166,7 +206,7 @@ func (mo *monitor) judge(c *Case, pi int, transport string, clientIP string, que
 	qf := rc.Facts(query)
 	shape := fmt.Sprintf("%s|%s|opt=%v do=%v cd=%v ad=%v nopt=%d", tr, class, qf.HasOPT, qf.DO, qf.CD, qf.AD, len(qf.Options))
 	r.DistinctIn("shapes", shape)
-	r.Distinct(fmt.Sprintf("%s|%s|%d|%s", c.Kind, shape, len(reply)/256, c.UpstreamDesc))
+	r.Distinct(fmt.Sprintf("%s|%s|%d|%s", c.Kind, shape, len(reply)/256, desc))
 	if tr == "udp" && len(reply) > 0 {
 		h := reply[2]
 		if h&0x02 != 0 {
@@ -189,8 +229,7 @@ func (mo *monitor) judge(c *Case, pi int, transport string, clientIP string, que
 			sig = "upstream-cookie-passthrough"
 		}
 		r.Count("breach/"+sig, 1)
-		wit := *c
-		wit.Probes = append([]Probe(nil), c.Probes[:pi+1]...)
+		wit := witness()
 		r.Violation(sig, fmt.Sprintf("%s over %s (conf nsid=%q secret=%v ecs=%v): %s; query=%x reply=%x",
 			c.Kind, transport, mo.cs.NSID, mo.cs.Secret != "", mo.cs.ECS, b.Detail, query, reply),
 			map[string]any{"case": wit, "probe": pi, "breach": b, "conf": mo.cs})
@@ -200,10 +239,19 @@ func (mo *monitor) judge(c *Case, pi int, transport string, clientIP string, que
 // upstreamHasOption reports whether the scripted upstream response's own OPT
 // carries exactly this option (never true when the request OPT is re-attached).
 func (c *Case) upstreamHasOption(code uint16, dataHex string) bool {
+	for _, s := range c.allScripts() {
+		if !s.ReqOPT && hexHasOption(s.Hex, code, dataHex) {
+			return true
+		}
+	}
 	if c.UpstreamHex == "" || c.UpstreamReqOPT {
 		return false
 	}
-	b, _ := hex.DecodeString(c.UpstreamHex)
+	return hexHasOption(c.UpstreamHex, code, dataHex)
+}
+
+func hexHasOption(upstreamHex string, code uint16, dataHex string) bool {
+	b, _ := hex.DecodeString(upstreamHex)
 	m := new(dns.Msg)
 	if m.Unpack(b) != nil {
 		return false
@@ -688,10 +736,29 @@ func (mo *monitor) runAll(cases []*Case) {
 	wg.Wait()
 }
 
-func newMonitor(r *vlib.Run, ci int) (*monitor, error) {
+// seqDNSSEC: the sequence stacks run with local validation "on" (what admits
+// RFC 8020 subtree cuts and RFC 8198 proofs into the cache) except under the
+// last configuration, so alias chases are also composed with it off.
+func seqDNSSEC(ci int) string {
+	if ci%len(confs) == len(confs)-1 {
+		return "off"
+	}
+	return "on"
+}
+
+func newMonitor(r *vlib.Run, ci int, seq bool) (*monitor, error) {
 	cs := confs[ci%len(confs)]
 	ups := &upstreams{}
-	st, err := stack.New(stack.Options{Config: buildConfig(cs), Stub: ups.stub,
+	cfg := buildConfig(cs)
+	if seq {
+		cfg.DNSSEC = seqDNSSEC(ci)
+		// views and a non-empty blocklist decode every request ahead of the
+		// cache; without them a wire-born request reaches the cache undecoded
+		// and its byte ladder (exact copy, alias-chase composition, subtree
+		// cut, cached failure) answers
+		cfg.Views, cfg.Blocklist = nil, nil
+	}
+	st, err := stack.New(stack.Options{Config: cfg, Stub: ups.stub,
 		Listen: stack.Listen{Plain: true, DoT: true, DoH: true, DoQ: true}})
 	if err != nil {
 		return nil, err
@@ -713,7 +780,7 @@ func main() {
 
 	total := 0
 	for ci := range confs {
-		mo, err := newMonitor(r, ci)
+		mo, err := newMonitor(r, ci, false)
 		if err != nil {
 			r.Fatalf("stack: %v", err)
 		}
@@ -765,6 +832,8 @@ func main() {
 		r.Count("server/udp_inline_served", int(after["udp_inline_served"]-before["udp_inline_served"]))
 		r.Count("stub_calls", int(mo.st.Stub().Total()))
 		mo.st.Close()
+
+		total += runSequences(r, ci)
 	}
 	r.Count("cases", total)
 	r.Note("configs", confs)
@@ -786,6 +855,7 @@ func main() {
 	r.Require("outcome/raw/silent", 10) // access-denied + rate-limited via strict job
 	r.Require("strict_branch", 1000)
 	r.Require("inline_served", 30)
+	requireSequences(r)
 	r.Finish("every reply observed on every transport/entry is judged by replycontract.Check (the C06 statement) against the exact query bytes that produced it; distinct = (case kind, transport, reply class, client EDNS shape, size bucket, upstream shape)")
 }
 
@@ -793,19 +863,23 @@ func replay(r *vlib.Run, raw json.RawMessage) {
 	var doc struct {
 		Case Case `json:"case"`
 	}
-	if err := json.Unmarshal(raw, &doc); err != nil || len(doc.Case.Probes) == 0 {
+	if err := json.Unmarshal(raw, &doc); err != nil || len(doc.Case.Probes)+len(doc.Case.Steps) == 0 {
 		fmt.Fprintln(os.Stderr, "replay: not a C06 case:", err)
 		r.Inconclusive("replay file is not a C06 case")
 		return
 	}
 	c := doc.Case
-	mo, err := newMonitor(r, c.Config)
+	mo, err := newMonitor(r, c.Config, len(c.Steps) > 0)
 	if err != nil {
 		r.Fatalf("stack: %v", err)
 	}
 	defer mo.st.Close()
 	cl := mo.st.NewClient("127.66.0.1")
 	defer cl.Close()
+	if len(c.Steps) > 0 {
+		mo.runSeq(&c, cl)
+		return
+	}
 	for i := range c.Probes {
 		if c.Probes[i].Entry == "sock" {
 			c.Probes[i].Client = cl.SrcIP
